@@ -170,4 +170,21 @@ def scenarios():
                          [_w(h, [_rq("md", "text", kind=k)])
                           for h, k in ((1, "api"), (2, "file"), (3, "api"), (5, "api"),
                                        (6, "file"), (7, "api"))]})
+  # 9: error messages that enumerate a set (TypedDict keys, missing match
+  # cases), under eight hash seeds
+  ssrc = ("from typing import Literal, TypedDict\n"
+          "class Movie(TypedDict):\n  name: str\n  year: int\n  director: str\n"
+          "  rating: float\n  length: int\n"
+          "def show(m: Movie): pass\n"
+          "show({'name': 'x'})\n"
+          "show({'name': 'x', 'aaa': 1, 'bbb': 2, 'ccc': 3, 'ddd': 4})\n"
+          "m: Movie = {'year': 1}\n"
+          "def f(x: Literal['aa', 'bb', 'cc', 'dd', 'ee']):\n"
+          "  match x:\n    case 'aa':\n      return 1\n")
+  sp = {"ms": {"module": "main", "src": ssrc, "deps": [], "exports": {}}}
+  out.append({"programs": sp, "scripted": "set_valued_messages_across_hash_seeds",
+              "workers": [_w0([_rq("ms", "text")])] +
+                         [_w(h, [_rq("ms", "text", kind=k)])
+                          for h, k in ((1, "api"), (2, "file"), (3, "api"), (5, "api"),
+                                       (6, "file"), (7, "api"))]})
   return out
